@@ -13,7 +13,13 @@ RULE = ("configurations: orthorhombic / GROMACS-reduced triclinic boxes built "
         "configuration is non-trivial when at least one reported pair/triple "
         "is found only through a periodic image or a neighbouring grid cell; "
         "distinct = hash of (box, cutoff, positions, types); one evaluation = "
-        "one (configuration, search variant) judged.")
+        "one (configuration, search variant) judged. reuse families: one "
+        "search object serves 3-6 Generate() calls (new positions / box incl. "
+        "orthorhombic<->triclinic on the same Topology / cutoff / lists / "
+        "exclusion switch, another Topology in between, exclusions rebuilt "
+        "after adding an interaction, direct InsertExclusion with descending "
+        "ids, one BeadList filled by two Generate calls); every call is one "
+        "evaluation per object.")
 
 
 def prebuild():
@@ -24,17 +30,54 @@ def run(chk):
     shards = 16
     n = vf.tier_n(chk.tier, 3000, 80000)      # pair configurations
     n3 = vf.tier_n(chk.tier, 800, 16000)      # 3-body configurations
-    per, per3 = (n + shards - 1) // shards, (n3 + shards - 1) // shards
+    nr = vf.tier_n(chk.tier, 1600, 40000)     # reuse sequences, pair searches
+    nr3 = vf.tier_n(chk.tier, 640, 16000)     # reuse sequences, NBList_3Body
+    nr3g = vf.tier_n(chk.tier, 320, 8000)     # reuse sequences, NBListGrid_3Body
+
+    def per(x):
+        return (x + shards - 1) // shards
     h = vf.build_harness("asan", "c03")
     env = vf.lib_env("asan")
     chk.rule = RULE
     chk.sanitizer = {"flavour": "asan", "reports": 0}
     jobs = [lambda s=s: vf.run_proc(
-        [h, "--seed", str(chk.seed), "--shard", str(s), "--n", str(per),
-         "--n3", str(per3)], env=env, timeout=3600) for s in range(shards)]
-    for s, res in enumerate(vf.run_parallel(jobs)):
+        [h, "--seed", str(chk.seed), "--shard", str(s), "--n", str(per(n)),
+         "--n3", str(per(n3)), "--reuse", str(per(nr)), "--reuse3",
+         str(per(nr3))], env=env, timeout=3600) for s in range(shards)]
+    # reuse of one NBListGrid_3Body object: own processes, because a stale
+    # grid can end in a sanitizer abort and must not take the other families
+    # with it
+    jobs += [lambda s=s: vf.run_proc(
+        [h, "--seed", str(chk.seed), "--shard", str(s), "--n", "0", "--n3",
+         "0", "--reuse3grid", str(per(nr3g))], env=env, timeout=3600)
+        for s in range(shards)]
+    results = vf.run_parallel(jobs)
+    for s, res in enumerate(results[:shards]):
         if not chk.ingest(res, "c03 shard %d" % s):
             chk.sanitizer["reports"] += 0 if res.rc == 0 else 1
+    for s, res in enumerate(results[shards:]):
+        what = "c03 NBListGrid_3Body reuse shard %d" % s
+        if res.timed_out or res.rc == 0:
+            chk.ingest(res, what)
+            continue
+        # aborted: keep what was reported before, key the abort inside the
+        # family (the rest of this shard's cases is lost, which is recorded)
+        for rec in res.records():
+            if rec.get("t") == "violation":
+                chk.violation(rec["key"], rec.get("witness", rec),
+                              rec.get("what", ""))
+        chk.sanitizer["reports"] += 1
+        key = vf.sanitizer_key(res.err) or "crash/rc%s" % res.rc
+        case = [l for l in res.err.splitlines()
+                if l.startswith("VFH-CURRENT-CASE")]
+        chk.violation("reuse/grid3/" + key,
+                      {"what": what, "rc": res.rc,
+                       "replay": case[-1].split(": ", 1)[1] if case else "",
+                       "stderr_tail": res.err[-4000:]},
+                      "sanitizer/assertion report while one NBListGrid_3Body "
+                      "object was used for a further Generate()")
+        chk.counters["reuse_grid3_shards_lost_to_abort"] = \
+            chk.counters.get("reuse_grid3_shards_lost_to_abort", 0) + 1
     hist = {}
     for k, v in chk.counters.items():
         if k.startswith("cells_per_dir_"):
@@ -55,7 +98,17 @@ def run(chk):
         "callback multiplicity is judged for pairs only; for triples the "
         "stored list is judged (exactly once), callback counts are recorded",
         "3-body variants are run without bonded interactions (the statement "
-        "defines exclusions for pairs only)"]
+        "defines exclusions for pairs only)",
+        "reuse: Generate() of the unchanged library never clears the stored "
+        "list (pairs/triples of all calls accumulate, the first entry of a "
+        "pair wins) - observation; the callback deliveries of each call are "
+        "judged always (for triples: the set of delivered triples), the "
+        "stored list only when the call started from an empty list (new "
+        "object or explicit Cleanup())",
+        "a BeadList filled by Generate(A) then Generate(B) is judged to be "
+        "the A beads followed by the B beads (append semantics of the "
+        "unchanged code); the same select twice lists every bead twice - "
+        "observation, not fed into a search"]
 
 
 def replay(path):
